@@ -13,6 +13,7 @@ import (
 	"sort"
 	"strconv"
 	"sync"
+	"time"
 
 	fpgo "github.com/TeaEntityLab/fpGo/v2"
 	"verifharness/lib"
@@ -399,7 +400,12 @@ func main() {
 	}
 	c.pass = ""
 	// ---- unsupported kinds
-	for _, v := range []interface{}{struct{}{}, []int{1}, map[string]int{}, complex(1, 1), func() {}, [1]int{1}} {
+	type offset int32
+	type celsius float64
+	type flags uint8
+	for _, v := range []interface{}{struct{}{}, []int{1}, map[string]int{}, complex(1, 1), func() {}, [1]int{1},
+		// defined numeric types are not among the supported sources either, whatever value they hold (negative, huge, NaN)
+		time.Duration(-5), time.Duration(math.MaxInt64), offset(-7), offset(3), celsius(-1.5), celsius(math.NaN()), celsius(1e300), flags(200), time.March} {
 		for i := range ts {
 			c.evals++
 			t := &ts[i]
